@@ -57,6 +57,7 @@ type BinaryOpts struct {
 	Env       []string // extra environment KEY=VALUE
 	NoDefault bool     // do not add --dir/--max_size/--http_address/--grpc_address/--profile_address defaults
 	TLS       bool     // HTTP port speaks TLS (only affects readiness probing)
+	Exe       string   // executable name under VERIF_BIN ("" = bazel-remote)
 	WaitReady time.Duration
 }
 
@@ -86,7 +87,11 @@ func StartBinary(o BinaryOpts) (*Child, error) {
 		return nil, err
 	}
 	c.LogPath = logf.Name()
-	cmd := exec.Command(BinPath("bazel-remote"), args...)
+	exe := o.Exe
+	if exe == "" {
+		exe = "bazel-remote"
+	}
+	cmd := exec.Command(BinPath(exe), args...)
 	cmd.Stdout, cmd.Stderr = logf, logf
 	cmd.Env = append(os.Environ(), o.Env...)
 	cmd.SysProcAttr = &syscall.SysProcAttr{Pdeathsig: syscall.SIGKILL}
